@@ -42,8 +42,8 @@ CLAIMED = {
  "C16": ("fault_enumeration", "fault injection on destination/scratch buffers (40 prefix x spare-capacity configurations enumerated), poisoned input capacity, post-return overwrite; differential against empty destination + snapshots",
          "Appending functions are run with every one of 40 dirty-destination configurations (thorough) and compared with the empty-destination result; scratch functions with dirty reused scratch vs none; every exported function's input [:cap] is compared after the call (also failing calls); inputs, scratch and destinations are overwritten after return and all returned strings/trees re-compared.",
          "Results of failing calls unconstrained. Inputs sampled.", "DESIGN.md section 4 C16"),
- "C18": ("exploration", "deterministic simulation: seeded cooperative scheduler over real goroutines parked at ~1,045 AST-inserted yield points of an instrumented scratch copy (stage A), plus free-running -race stage (B)",
-         "Stage A: 2-6 tasks on shared read-only documents, exactly one runnable, task and quantum from the schedule tape; each operation's outcome must equal the sequential run. Stage B: same scenarios uninstrumented under the race detector on 8x12 (quick) fresh processes, concurrent phase first. Both must pass. Stage A is replayable and shrinkable; stage B is not schedule-deterministic (evidence says so).",
+ "C18": ("exploration", "deterministic simulation: seeded cooperative scheduler over real goroutines parked at ~5,650 AST-inserted yield points (every statement) of an instrumented scratch copy; random-quantum, preemption-bounded, shared-state-aimed and exhaustive single-preemption-sweep schedules (stage A), plus free-running -race stage (B)",
+         "Stage A: 2-6 tasks on shared read-only documents, exactly one runnable, task and quantum from the schedule tape (random quanta; 1-3 preemptions placed from the task's own sequential yield count with a complete foreign operation in the gap; preemptions aimed at functions touching mutable package-level state when the tree has any; blocks of 1,024 scenarios that sweep every single-preemption point of a two-task base scenario); each operation's outcome incl. error text must equal the sequential run. Stage B: same scenarios uninstrumented under the race detector on 8x12 (quick) fresh processes, concurrent phase first. Both must pass. Stage A is replayable and shrinkable; stage B is not schedule-deterministic (evidence says so).",
          "Interleaving granularity = instrumented yield sites. Race detector for stage B.", "DESIGN.md section 4 C18, 7.2"),
  "C19": ("exploration", "simulated histories on warmed Buffers/destinations with allocation-count invariant (MemStats.Mallocs == 0 over 8 repetitions, GOMAXPROCS=1)",
          "REDUCED SCOPE. Every successful call of the zero-allocation class inside histories that dirty the shared Buffer/destination first (incl. failing calls) must allocate nothing; inputs are drawn per conversion path (exact float, Eisel-Lemire, long mantissa, halfway, subnormal, 18/19/20-digit ints, all escape kinds, depth equal to warmed depth, destination slack exactly 0).",
